@@ -23,7 +23,7 @@
     rank), and for every basis vector of the left kernel the position of its largest absolute entry ([mis], recorded from the
     real run and fed to the model as oracle input, like model/C17_Model.numerics). *)
 From Coq Require Import List NArith ZArith Bool Arith.
-From SK Require Import lib.Tok lib.Reach lib.C17_Farkas model.C17_Model model.C19_Model.
+From SK Require Import lib.Tok lib.Reach lib.C17_Farkas model.C17_Model model.C19_Model model.C19_Text.
 Import ListNotations.
 
 Record opts := Opts { o_stoich : bool; o_rank : bool }.
@@ -178,11 +178,15 @@ Definition tsnap (sn : snapshot) : tok :=
   L [tmat (sn_cs sn); tset tarc (sn_arcs sn); tlist (tset tN) (linkage_classes (sn_arcs sn) (length (sn_cs sn)));
      tsummary (sn_sum sn);
      tbool (certs_ok (hs_net (sn_x sn)) (hs_iso (sn_x sn)) (hs_rc (sn_x sn)) (hs_ccs (sn_x sn)))].
-Definition tone (d : one) : tok := L [tbool (one_hyp d); I (one_delta d); tlist I (one_ld d); tbool (one_reg d)].
+Definition tone (d : one) : tok :=
+  L [tbool (one_hyp d); I (one_delta d); tlist I (one_ld d); tbool (one_reg d); tlist tN (conclusion_str (one_hyp d))].
 Definition tnd (d : nd) : tok :=
   L [tnat (nd_nullity d); tlist (fun p => L [tnat (fst p); tbool (snd p)]) (nd_per d); tbool (nd_largest d); I (nd_max d);
      tbool (nd_basis_len_ok d)].
-Definition dump (st : ast) : tok := L [topt tsnap (s_sum st); topt (tlist I) (s_ld st); topt tone (s_one st); topt tnd (s_nd st)].
+(** ... and the two text views explain() / __repr__ (model/C19_Text.v) *)
+Definition dump (st : ast) : tok :=
+  L [topt tsnap (s_sum st); topt (tlist I) (s_ld st); topt tone (s_one st); topt tnd (s_nd st);
+     tlist tN (explain_str (option_map sn_sum (s_sum st))); tlist tN (repr_str (option_map sn_sum (s_sum st)))].
 
 (** a script of calls on ONE analyzer object: after every call the result code and everything the object stores *)
 Definition run19_ops (o : opts) (cs : list call) : tok :=
